@@ -136,6 +136,35 @@ def parseCompord (r : String) : Option (String × Nat) :=
   | [p, o] => (parseOrder o).map fun x => (p, x)
   | _ => none
 
+def parseOpen (s : String) : Option Bool := if s = "OPEN" then some true else if s = "SHUT" then some false else none
+
+/-- WELSEGS: first record = well, then segment,branch,outlet,length,depth,diameter,roughness,area. -/
+def parseWelsegs (recs : List String) : Option SegOp :=
+  match recs with
+  | [] => none
+  | w :: rs =>
+    (allSome (rs.map fun r => match r.splitOn "," with
+      | [n, b, o, _, _, d, ro, a] => some ({ num := n.toNat!, branch := b.toNat!, outlet := o.toNat!, diam := d, rough := ro, area := a } : Seg)
+      | _ => none)).map fun ss => .welsegs w ss
+
+def parseValve (r : String) : Option (String × ValveRec) :=
+  match r.splitOn "," with
+  | [w, n, cv, ac, pd, pr, pa, st, mx] =>
+    (parseOpen st).map fun o => (w, { seg := n.toNat!, cv := cv, ac := ac, pd := optTok pd, pr := optTok pr, pa := optTok pa, isOpen := o, maxA := optTok mx })
+  | _ => none
+
+def parseMsw (name : String) (recs : List String) : Option SegOp :=
+  if name = "WELSEGS" then parseWelsegs recs
+  else if name = "WSEGVALV" then
+    match allSome (recs.map parseValve) with
+    | some ((w, v) :: rest) => if rest.all (fun x => x.1 = w) then some (.valve w (v :: rest.map Prod.snd)) else none
+    | _ => none
+  else match recs with
+    | [r] => match r.splitOn "," with
+      | [w, n, _, len, st] => (parseOpen st).map fun o => if name = "WSEGSICD" then .sicd w n.toNat! len o else .aicd w n.toNat! len o
+      | _ => none
+    | _ => none
+
 def parseKw (s : String) : Option (Kw CKw) :=
   match s.splitOn "=" with
   | [name, body] =>
@@ -146,6 +175,7 @@ def parseKw (s : String) : Option (Kw CKw) :=
     else if name = "ACTIONX" then some (.other (.actionx body))
     else if name = "ENDACTIO" then some (.other .endactio)
     else if name = "COMPORD" then (allSome (recs.map parseCompord)).map fun rs => .other (.compord rs)
+    else if ["WELSEGS", "WSEGVALV", "WSEGSICD", "WSEGAICD"].contains name then (parseMsw name recs).map fun o => .other (.msw o)
     else if modelled.contains name then
       (allSome (recs.map fun r => parseROp name (r.splitOn ","))).map fun rs => .other (.ops name rs)
     else some (.other (.ops name []))
@@ -260,6 +290,10 @@ def kwName : CKw → String
   | .actionx _ => "ACTIONX"
   | .endactio => "ENDACTIO"
   | .compord _ => "COMPORD"
+  | .msw (.welsegs ..) => "WELSEGS"
+  | .msw (.valve ..) => "WSEGVALV"
+  | .msw (.sicd ..) => "WSEGSICD"
+  | .msw (.aicd ..) => "WSEGAICD"
 
 def sortByKey {α} (m : List (String × α)) : List (String × α) := m.mergeSort fun a b => a.1 ≤ b.1
 
@@ -285,8 +319,26 @@ def showState (s : State) : String :=
 def showEv (s : State) : String :=
   s!"X:{"/".intercalate ((names s.p.wells).filter fun w => s.ev.contains w)}"
 
-/-- The full observation record: `showState` plus the status-change events. -/
-def showFull (s : State) : String := showState s ++ ";" ++ showEv s
+def openName (b : Bool) : String := if b then "OPEN" else "SHUT"
+
+def showSeg (s : Seg) : String :=
+  let ty := match s.icd with | .none => "R" | .valve .. => "V" | .sicd .. => "S" | .aicd .. => "A"
+  let geo := if s.num > 1 then s!".{s.diam}.{s.rough}.{s.area}" else ""
+  let dev := match s.icd with
+    | .none => ""
+    | .valve cv ac o pd pr pa mx => s!".{cv}.{ac}.{openName o}.{pd}.{pr}.{pa}.{mx}"
+    | .sicd len o => s!".{len}.{openName o}"
+    | .aicd len o => s!".{len}.{openName o}"
+  s!"{s.num}.{s.branch}.{s.outlet}.{ty}{geo}{dev}"
+
+/-- The segment sets of the multisegment wells, in well order, segments by number. -/
+def showSegs (s : State) : String :=
+  let ws := (names s.p.wells).filterMap fun w => (lookup s.p.segs w).map fun ss =>
+    s!"{w}({"+".intercalate ((ss.mergeSort fun a b => a.num ≤ b.num).map showSeg)})"
+  s!"S:{"/".intercalate ws}"
+
+/-- The full observation record: `showState` plus the status-change events and the segment sets. -/
+def showFull (s : State) : String := showState s ++ ";" ++ showEv s ++ ";" ++ showSegs s
 
 def showBlocks (bs : List (Block CKw)) : String :=
   let times := ",".intercalate (bs.map fun b => toString (b.start / 1000))
